@@ -11,6 +11,24 @@ TB = ("Trusted: Lean 4.33 kernel; axioms ⊆ {propext, Classical.choice, Quot.so
       "(constants/tables regenerated from /repo) and the differential correspondence stream; ")
 
 NOTES = {
+    "C18": {
+        "text": "Kernel-checked: a SHA-256 digest has 32 bytes, so both the run-time path (hashv, 8-byte prefix, copy_from_slice) and the compile-time path (digest prefix as a byte-string "
+                "literal) succeed and equal the first 8 bytes of the digest of the input's bytes, for every input; the literal model shows `escape s` denotes exactly s for every Unicode string "
+                "(no trimming/normalisation); u64/array/slice conversions are lossless, little-endian, and a slice converts iff it has 8 bytes. Slice bounds and LENGTH are regenerated from source.",
+        "design_ref": "§5 C18",
+        "note": TB + "the Lean SHA-256 is the independent hash (validated against sha2 and NIST vectors, not proved equal to FIPS 180-4); syn's literal parsing and token printing are modelled/validated; "
+                "the derive is exercised in-process through discriminator-syn (the proc-macro wrapper itself only forwards to it).",
+        "technique": "Lean 4 theorem (all strings / all 64-bit values, kernel-checked) + translator-regenerated slice bounds + differential correspondence on literal source text",
+    },
+    "C19": {
+        "text": "Kernel-checked for every enum description: Rust discriminant numbering, into-ProgramError = Custom(discriminant), lookup is the two-sided inverse when codes are distinct, "
+                "to_str = first string-literal #[error] text = Display, default message otherwise; hashed start = first nonce whose SHA-256 bytes 13..17 (LE) reach 7000, later codes +1, wrong "
+                "declared start rejected naming the right value. Library enum tables are regenerated from source each run and decided by kernel evaluation (distinct, contiguous, to_str = Display, "
+                "lookup inverse on all u32).",
+        "design_ref": "§5 C19",
+        "note": TB + "thiserror / num_enum / num_derive expansions are modelled (validated by the stream for the library enums); the Lean SHA-256 is validated not proved.",
+        "technique": "Lean 4 theorem (all enum descriptions) + decide over regenerated library tables + differential correspondence",
+    },
     "C13": {
         "text": "Kernel-checked for every byte width k at once (u16…u128 and beyond): LE encode/decode are mutually inverse, byte j is n/256^j%256, two's-complement signed round trip, "
                 "bool read/write, usize conversion succeeds iff the value fits and round-trips, single casts succeed iff length = k, slice casts iff length % k = 0 and alias the same bytes. "
